@@ -192,7 +192,11 @@ def run(rep, tier, seed):
         if container == 'set' and tagging is None:
             # an untagged ANY member makes a SET ambiguous (X.680 demands distinct tags): not a legal type
             tagging = (rng.choice('ie'), rng.randrange(0, 5))
-        keys = [1, 2, 3] if id_kind == 'int' else [(1, 3, 6, 1), (1, 3, 6, 2), (2, 5, 4)]
+        # governing values: boundary integers (0 is falsy in Python, negative, multi-octet) and OIDs of every
+        # first-arc family, in random order
+        keys = ([0, 1, -1, 2, 127, 128, 300, -129, 65536] if id_kind == 'int'
+                else [(1, 3, 6, 1), (1, 3, 6, 2), (2, 5, 4), (0, 0), (2, 999, 3), (1, 2, 840, 113549, 1)])
+        rng.shuffle(keys)
         tm = {}
         for k in keys[:rng.randrange(1, 4)]:
             t = g0.ty(1)
